@@ -431,6 +431,7 @@ class Machine:
         self.mark_rotation()
         self.ctx.label('transform:' + e.kind)
         mutated = None
+        frozen_before = False
         with e.obj.transform() as m:
             for what, arg in steps:
                 if what == 'rot':
@@ -442,6 +443,9 @@ class Machine:
                 else:
                     self._do_copy(None, 'freeze', obj=m, kind='Matrix')
                     self.ctx.label('transform_block:freeze' + (f'_after_{mutated}' if mutated else ''))
+                    if frozen_before and mutated:
+                        self.ctx.label(f'transform_block:freeze_again_after_{mutated}')
+                    frozen_before, mutated = True, None
         return e
 
     def c_localise(self, i, j, rk, k, org_tuple):
@@ -944,7 +948,8 @@ _COPIES = tuple(f'copy:{h}:{k}' for h in ('copy', 'copy.copy', 'deepcopy', 'pick
     + tuple(f'copy:freeze:{k}' for k in MUT_K) + tuple(f'copy:thaw:{k}' for k in FROZEN_K)
 
 _CYCLES = ('freeze_again_after_setitem', 'freeze_again_after_imatmul', 'copy_again_after_setitem', 'deepcopy_again_after_setitem',
-           'pickle5_again_after_setitem', 'transform_block:freeze_after_setitem', 'transform_block:freeze_after_imatmul') \
+           'pickle5_again_after_setitem', 'transform_block:freeze_after_setitem', 'transform_block:freeze_after_imatmul',
+           'transform_block:freeze_again_after_setitem') \
     + tuple(f'cycle:{k}:{m}' for k, ms in Machine.MUTATORS.items() for m in ms)
 
 SUBCHECKS = [
